@@ -131,8 +131,66 @@ def merge_rule(ck, P):
              "does not come back unchanged from a tar/directory container" % (sorted({y["name"] for y in keep + guards}) or "no insert at all"), ir.loc(lp))
 
 
+def mbtiles_meta_rule(ck, P):
+    """R-MB-META: the MBTiles writer stores metadata rows as (name, value): set_metadata binds its two parameters to the columns
+    (name, value) of one INSERT in that order, and every call site passes the key first — a constant key with its value, or the
+    loop key of the pass-through keys together with tilejson.get_str(that key)."""
+    sm = [b for b in P.bodies if b["q"].endswith("mbtiles::writer::MBTilesWriter::set_metadata")]
+    wp = None
+    for i in P.impls_of("::TilesWriterTrait"):
+        if i.get("self_adt", "").endswith("::MBTilesWriter"):
+            wp = P.impl_method(i, "write_to_path", inline=False)
+    if not ck.anchor("R-MB-META", "MBTilesWriter::set_metadata + write_to_path", sm + ([wp] if wp else []), 2):
+        return
+    b = sm[0]
+    params = [x for p_ in b["params"] for x in ir.pat_binds(p_) if x["name"] != "self"]
+    ex = [y for y in ir.walk_nodes(b["body"]) if y.get("k") == "mcall" and (y.get("q") or "").endswith("Connection::execute")]
+    oks = False
+    why = "%d execute calls" % len(ex)
+    if len(ex) == 1 and len(params) == 2 and len(ex[0].get("a", ())) == 2:
+        sql = ir.const_eval_str(ex[0]["a"][0]) or ""
+        import re as _re
+        m_ = _re.search(r"INTO\s+metadata\s*\(\s*(\w+)\s*,\s*(\w+)\s*\)\s*VALUES\s*\(\s*\?1\s*,\s*\?2\s*\)", sql, _re.I)
+        arr = [y for y in ir.walk_nodes(ex[0]["a"][1]) if y.get("k") == "array"]
+        binds = [ir.local_hid(e_) if ir.local_hid(e_) is not None else next((z["hid"] for z in ir.walk_nodes(e_) if z.get("k") == "path" and z.get("r") == "local"), None) for e_ in (arr[0]["es"] if arr else ())]
+        oks = bool(m_) and (m_.group(1).lower(), m_.group(2).lower()) == ("name", "value") and binds == [params[0]["hid"], params[1]["hid"]] and "REPLACE" in sql.upper()
+        why = "SQL %r, bound parameters %s" % (sql, binds)
+    ck.check(oks, "R-MB-META", b["q"], "set_metadata(name, value) executes one INSERT OR REPLACE INTO metadata (name, value) VALUES (?1, ?2) with (name, value) bound in that order",
+             "set_metadata does not store (name, value) as given (%s)" % why, ir.loc(b))
+    calls = [y for y in ir.walk_nodes(wp["body"]) if y.get("k") == "mcall" and (ir.callee(y) or "").endswith("MBTilesWriter::set_metadata") and len(y.get("a", ())) == 2]
+    bad = []
+    keys = set()
+    lets = comp.lets_of(wp)
+    for y in calls:
+        k0 = ir.const_eval_str(y["a"][0])
+        if k0:
+            keys.add(k0)
+            if k0 not in ("name", "format", "bounds", "center", "minzoom", "maxzoom", "attribution", "description", "type", "version", "json", "author", "license"):
+                bad.append("%r is not an MBTiles metadata key" % k0)
+            if ir.const_eval_str(y["a"][1]) == k0:
+                bad.append("value of %r is the key itself" % k0)
+            continue
+        # pass-through loop: for key in [..] { if let Some(value) = tilejson.get_str(key) { set_metadata(key, value) } }
+        kh = ir.local_hid(y["a"][0])
+        vh = ir.local_hid(y["a"][1])
+        okp = False
+        for n in ir.walk_nodes(wp["body"]):
+            if n.get("k") == "for" and kh in {x["hid"] for x in ir.pat_binds(n["pat"])} and ir.contains(n["body"], lambda z: z is y):
+                for c in ir.walk_nodes(n["body"]):
+                    if c.get("k") == "if" and ir.unparen(c["c"]).get("k") == "letx" and vh in {x["hid"] for x in ir.pat_binds(ir.unparen(c["c"])["pat"])} and ir.contains(c["then"], lambda z: z is y):
+                        init = ir.unparen(c["c"])["init"]
+                        okp = ir.contains(init, lambda z: z.get("k") == "mcall" and z.get("name", "").startswith("get") and z.get("a") and ir.local_hid(z["a"][0]) == kh)
+                keys |= {v for v in (ir.const_eval_str(z) for z in ir.walk_nodes(n["iter"]) if z.get("k") == "lit") if v}
+        if not okp:
+            bad.append("call at %s does not pass (key, value looked up under that key)" % ir.loc(y))
+    need = {"format", "bounds", "minzoom", "maxzoom", "name", "json"}
+    ck.check(not bad and need <= keys and len(calls) >= 8, "R-MB-META", wp["q"], "every set_metadata call passes the key first and its own value second (%d calls; keys %s)" % (len(calls), sorted(keys)),
+             "metadata rows are not written as (key, its value): %s%s" % (bad[:2], "" if need <= keys else "; missing keys %s" % sorted(need - keys)), ir.loc(wp))
+
+
 def rules(ck, P):
     merge_rule(ck, P)
+    mbtiles_meta_rule(ck, P)
     esc = [b for b in P.bodies if b["q"].endswith("json::stringify::escape_json_string")]
     par = [b for b in P.bodies if b["q"].endswith("byte_iterator::basics::parse_quoted_json_string")]
     if ck.anchor("R-ESC-INVERSE", "escape_json_string + parse_quoted_json_string", esc + par, 2):
